@@ -7,11 +7,103 @@ scenario = {"repo": <dir containing pypyr/>, "lib": <dir for harness step/loader
             "kind": "paths", "root": R, "cases": [{"files": [rel…], "name": str, "parent": str|null,
                                                    "parent_form": "path"|"str"}…]}
          | {…, "kind": "run", "name": str, "loader": str|null}
+         | {…, "kind": "seq", "root": R, "noCache": bool, "ops": [
+               {"op": "fs", "files": [rel…]}          leaf pipelines present from now on (others are removed)
+             | {"op": "req", "via": "obj"|"obj.run"|"new"|"runner"|"pype", "obj": k, "name": str,
+                "parent": str|null, "parent_form": "path"|"str", "wrapper": rel|null, "py_dir": str|null}
+             | {"op": "clear"} | {"op": "noCache", "b": bool} …]}
+           a SEQUENCE of look-ups in this one process, caches warm; → {"results": [{ran: [marker…], err, msg}…]}
 """
 import json
 import os
 import sys
 from pathlib import Path
+
+
+def run_seq(sc):
+    import signal
+    import pypyr.cache.admin
+    import pypyr.pipelinerunner
+    from pypyr.config import config
+    from pypyr.context import Context
+    from pypyr.pipeline import Pipeline
+    import vtrail
+    root = Path(sc['root'])
+    config.no_cache = bool(sc.get('noCache'))
+    objs = {}
+    leaves = set()
+    results = []
+    sys_before = list(sys.path)
+
+    class Timeout(BaseException):
+        pass
+
+    def on_alarm(signum, frame):
+        raise Timeout()
+    signal.signal(signal.SIGALRM, on_alarm)
+    for op in sc['ops']:
+        k = op['op']
+        if k == 'fs':
+            want = set(op['files'])
+            for rel in leaves - want:
+                try:
+                    os.remove(root / rel)
+                except FileNotFoundError:
+                    pass
+            for rel in want:
+                f = root / rel
+                f.parent.mkdir(parents=True, exist_ok=True)
+                # the step module lives NEXT TO the pipeline file: running it shows the directory is importable
+                dirid = str(Path(rel).parent).replace('/', '_').replace('+', '_')
+                mod = f.parent / f'vmod_{dirid}.py'
+                if not mod.exists():
+                    mod.write_text("import vtrail\n\ndef run_step(context):\n    vtrail.T.append(context['vfile'])\n")
+                f.write_text(f"steps:\n  - name: vmod_{dirid}\n    in:\n      vfile: {json.dumps(rel)}\n")
+            leaves = want
+        elif k == 'clear':
+            pypyr.cache.admin.clear_all()
+        elif k == 'noCache':
+            config.no_cache = bool(op['b'])
+        elif k == 'req':
+            parent = op['parent']
+            if parent is not None and op.get('parent_form') == 'path':
+                parent = Path(parent)
+            if op.get('py_dir') and op.get('py_dir_form') == 'path':
+                op['py_dir'] = Path(op['py_dir'])
+            del vtrail.T[:]
+            r = {'err': None, 'msg': None}
+            signal.alarm(30)
+            try:
+                via = op['via']
+                if via in ('obj', 'obj.run'):
+                    key = (op['obj'], op['name'])
+                    if key not in objs:
+                        objs[key] = Pipeline(op['name'], py_dir=op.get('py_dir'))
+                    if via == 'obj.run':
+                        objs[key].run(Context())
+                    else:
+                        objs[key].load_and_run_pipeline(Context(), parent)
+                elif via == 'new':
+                    Pipeline(op['name'], py_dir=op.get('py_dir')).load_and_run_pipeline(Context(), parent)
+                elif via == 'runner':
+                    pypyr.pipelinerunner.run(op['name'], py_dir=op.get('py_dir'))
+                elif via == 'pype':
+                    pypyr.pipelinerunner.run(str(root / op['wrapper'])[:-5])
+                else:
+                    raise SystemExit(f'unknown via {via}')
+            except Timeout:
+                r = {'err': 'timeout', 'msg': 'the look-up did not return within 30 s'}
+            except Exception as e:  # noqa: BLE001
+                r = {'err': type(e).__name__, 'msg': str(e)}
+            finally:
+                signal.alarm(0)
+            r['ran'] = list(vtrail.T)
+            r['sys_path_added'] = [p for p in sys.path if p not in sys_before]
+            r['sys_path_dups'] = sorted({p for p in sys.path if sys.path.count(p) > 1 and p not in sys_before})
+            results.append(r)
+            if r['err'] == 'timeout':
+                break
+    return results
 
 
 def main():
@@ -47,6 +139,8 @@ def main():
             except Exception as e:  # noqa: BLE001
                 results.append({'err': type(e).__name__, 'msg': str(e)})
         out['results'] = results
+    elif sc['kind'] == 'seq':
+        out['results'] = run_seq(sc)
     else:
         import pypyr.pipelinerunner
         before = list(sys.path)
